@@ -13,7 +13,7 @@ from vlib.gen import make_r_fmt, make_r_sub, make_r_dyn, r_unit_tail, r_mutself,
 C = "src/query/condition.rs"
 E = "src/expr.rs"
 P = ["C06"]
-OPAQUE = ["ColumnRef", "FunctionCall", "SubQueryOper", "SubQueryStatement", "Keyword", "DynIden", "CaseStatement", "PgBinOper", "SqliteBinOper", "LogicalChainOper"]
+OPAQUE = ["ColumnRef", "FunctionCall", "SubQueryOper", "SubQueryStatement", "Keyword", "DynIden", "PgBinOper", "SqliteBinOper", "LogicalChainOper", "JoinType", "TableRef"]
 
 ENV = "forall|env: Env| "
 ENS = "ensures " + ENV
@@ -37,6 +37,11 @@ def build(u):
     u.type_item(C, "enum", "ConditionExpression", props=P)
     u.type_item(C, "enum", "ConditionHolderContents", props=P)
     u.type_item(C, "struct", "ConditionHolder", props=P)
+    # CASE WHEN <condition> and JOIN .. ON <condition> hold conditions too
+    u.type_item("src/query/case.rs", "struct", "CaseStatementCondition", props=P, rules=[r_vis])
+    u.type_item("src/query/case.rs", "struct", "CaseStatement", props=P, rules=[r_vis])
+    u.type_item("src/types.rs", "enum", "JoinOn", props=P)
+    u.type_item("src/query/select.rs", "struct", "JoinExpr", props=P)
     u.prelude_file("units/cond/spec.rs", props=P)
 
     # ---- SimpleExpr::{and, or, not} and the ExprTrait methods they run (specialised to SimpleExpr; `.into()` of a
@@ -204,7 +209,7 @@ ensures
     %(env)s#[trigger] sem_holder(final(self).%(f)s, env) == and3(sem_holder(old(self).%(f)s, env), %(add)s),"""
     r_ic = [make_r_sub("R-into", r"<C>\(&mut self, condition: C\)", "<C: IntoCondition>(&mut self, condition: C)"),
             make_r_sub("R-into", r"where\s+C: IntoCondition,", ""), make_r_sub("R-inherent", r"^(\s*)pub fn", r"\1fn", flags=re.M, min_count=0), r_retself]
-    for st, f, fields in [("SelectStatement", "src/query/select.rs", ["where", "having"]), ("UpdateStatement", "src/query/update.rs", ["where"]), ("DeleteStatement", "src/query/delete.rs", ["where"])]:
+    for st, f, fields in [("SelectStatement", "src/query/select.rs", ["where", "having", "join"]), ("UpdateStatement", "src/query/update.rs", ["where"]), ("DeleteStatement", "src/query/delete.rs", ["where"])]:
         u.type_item(f, "struct", st, props=P, keep_fields=fields)
         u.emit("impl %s {\n" % st)
         u.fn(f, "impl ConditionalStatement for %s" % st, "cond_where", props=P, rules=r_ic, key="%s::cond_where" % st, vpath="%s::cond_where" % st,
@@ -226,6 +231,50 @@ ensures
             u.fn(f, "impl SelectStatement", "and_having", props=P, rules=[r_retself],
                  key="SelectStatement::and_having", spec=HOLD % {"f": "having", "env": ENV, "add": "sem_expr(other, env)"})
         u.emit("}\n")
+    # ---- JOIN .. ON <condition> and CASE WHEN <condition> ---------------------------------------------------------------------------
+    JOINP = """ensures
+    // one join is appended; its ON predicate means exactly the condition that was given
+    final(self).join@.len() == old(self).join@.len() + 1, final(self).join@.drop_last() == old(self).join@,
+    final(self).join@.last().on matches Some(JoinOn::Condition(h)) && (%s#[trigger] sem_holder(*h, env) == condition.cond_sem(env)),
+    final(self).r#where == old(self).r#where, final(self).having == old(self).having,""" % ENV
+    # join_as / join_subquery / join_lateral differ from join() only in the table argument: checked syntactically on every run
+    # (each constructs its ON clause by the same expression as the verified join())
+    import glob, os
+    want = "JoinOn::Condition(Box::new(ConditionHolder::new_with_condition(condition.into_condition(),)))"
+    nj = 0
+    for fp in sorted(glob.glob(os.path.join(u.repo, "src", "query", "*.rs"))):
+        txt = open(fp).read()
+        for m in re.finditer(r"JoinOn::Condition\(", txt):
+            line = txt.count("\n", 0, m.start()) + 1
+            if txt[:m.start()].rsplit("\n", 1)[-1].lstrip().startswith("//"):
+                continue
+            code = rl.code_toks(rl.lex(txt[m.end() - 1:]))
+            close = rl.match_close(code, 0)
+            got = "JoinOn::Condition" + "".join(t.text for t in code[:close + 1])
+            nj += 1
+            if got != want:
+                raise rl.Unsupported("%s:%d: a JOIN's ON clause is built as `%s`, not as in the verified SelectStatement::join" % (os.path.relpath(fp, u.repo), line, got[:120]))
+    if nj == 0:
+        raise rl.LostAnchor("no JoinOn::Condition(..) construction found under src/query")
+    u.emit("impl SelectStatement {\n")
+    u.fn("src/query/select.rs", "impl SelectStatement", "join_join", props=P, rules=[r_retself], key="SelectStatement::join_join",
+         spec="""ensures final(self).join@ == old(self).join@.push(JoinExpr { join, table: Box::new(table), on: Some(on), lateral }),
+    final(self).r#where == old(self).r#where, final(self).having == old(self).having,""")
+    r_tbl = [make_r_sub("R-into", r"where\s+R: IntoTableRef,\s+C: IntoCondition,", ""), make_r_sub("R-into", r"tbl_ref\.into_table_ref\(\)", "tbl_ref"), r_retself]
+    u.fn("src/query/select.rs", "impl SelectStatement", "join", props=P, key="SelectStatement::join",
+         rules=[make_r_sub("R-into", r"join<R, C>\(&mut self, join: JoinType, tbl_ref: R, condition: C\)", "join<C: IntoCondition>(&mut self, join: JoinType, tbl_ref: TableRef, condition: C)")] + r_tbl,
+         spec=JOINP, proofs={"body-end": "proof { assert(self.join@.drop_last() =~= old(self).join@); }"})
+    u.emit("}\n")
+    u.emit("impl CaseStatement {\n")
+    u.fn("src/query/case.rs", "impl CaseStatement", "case", ret="r", props=P, key="CaseStatement::case",
+         rules=[make_r_sub("R-into", r"case<C, T>\(mut self, cond: C, then: T\)", "case<C: IntoCondition>(mut self, cond: C, then: SimpleExpr)"),
+                make_r_sub("R-into", r"where\s+C: IntoCondition,\s+T: Into<SimpleExpr>,", ""), make_r_sub("R-into", r"then\.into\(\)", "then"), r_mutself, make_r_tailbind()],
+         spec="""ensures
+    // one WHEN branch is appended; its predicate means exactly the condition that was given, its result is the one given
+    r.when@.len() == self.when@.len() + 1, r.when@.drop_last() == self.when@, r.r#else == self.r#else,
+    r.when@.last().result == then, %s#[trigger] sem_cond(r.when@.last().condition, env) == cond.cond_sem(env),""" % ENV,
+         proofs={"before#1:r_\n": "proof { assert(r_.when@.drop_last() =~= self.when@); }"})
+    u.emit("}\n")
     # ---- rendering: an empty holder renders nothing; otherwise ` KEYWORD ` + the expression of the condition ------------------
     u.prelude_file("vlib/prelude/vfmt.rs")
     u.spec('''
@@ -253,7 +302,18 @@ impl AnyBackend {
     condition.contents is Condition ==> exists|e: SimpleExpr| (%s#[trigger] sem_expr(e, env) == sem_holder(*condition, env))
         && final(sql).text() == old(sql).text() + seq![' '] + keyword@ + seq![' '] + #[trigger] expr_text(e),""" % ENV,
          proofs={"body-start": "let ghost t0 = sql.text();\nproof { reveal_strlit(\" \"); assert(\" \"@ =~= seq![' ']); }"})
+    u.fn(QB, "trait QueryBuilder", "prepare_join_on", props=P, key="QueryBuilder::prepare_join_on", vpath="AnyBackend::prepare_join_on",
+         rules=[r_dynw, make_r_sub("R-panic", r"JoinOn::Columns\(_c\) => unimplemented!\(\),", "JoinOn::Columns(_c) => { Self::vpanic(); }")],
+         spec="""requires !(join_on is Columns),   // not implemented upstream (panics)
+ensures
+    // JOIN .. ON: same rule as WHERE / HAVING with the keyword ON
+    *join_on matches JoinOn::Condition(c) ==> (c.contents is Empty ==> final(sql).text() == old(sql).text()),
+    *join_on matches JoinOn::Condition(c) ==> (c.contents is Condition ==> exists|e: SimpleExpr| (%s#[trigger] sem_expr(e, env) == sem_holder(*c, env))
+        && final(sql).text() == old(sql).text() + seq![' '] + "ON"@ + seq![' '] + #[trigger] expr_text(e)),""" % ENV)
     u.spec("""
+    // R-panic (trusted): unimplemented!() / panic!() never return; reaching them is excluded by the precondition
+    #[verifier::external_body]
+    fn vpanic() requires false { unimplemented!() }
 }
 #[verifier::external_body]
 fn vabstract_chain<W: VWrite>(conditions: &Vec<LogicalChainOper>, sql: &mut W)
